@@ -49,7 +49,7 @@ def _votes():
 def strategy(shard):
     if shard["kind"] == "merge":
         # batch labels are arbitrary objects; 0 and '' are labels, only None means "not set"
-        tp = st.sampled_from([None, None, "p1", "p1", "p2", 0, ""] if not shard.get("conflict_bias") else [None, "p1", "p2", 0, ""])
+        tp = st.sampled_from([None, None, "p1", "p1", "p2", 0, "", "batch-1000"] if not shard.get("conflict_bias") else [None, "p1", "p2", 0, ""])
         rec = st.fixed_dictionaries(
             {"id": st.sampled_from(IDS), "votes": _votes(), "phantom": st.booleans(), "pool": st.booleans(), "tally_pool": tp,
              # how the caller holds the votes: its own dict, one template dict shared by all such records (votes ignored,
@@ -83,7 +83,15 @@ def _votes_of(r, case):
     return {} if h == "default" else (case.get("template", {}) if h == "template" else r["votes"])
 
 
+def _fresh(label):
+    """an equal but distinct object (labels read from files are never the same object twice)"""
+    if isinstance(label, str) and len(label) >= 2:
+        return "".join(list(label))
+    return label
+
+
 def _mk(CVR, r, template):
+    r = dict(r, tally_pool=_fresh(r["tally_pool"]))
     h = r.get("holds", "own")
     if h == "default":
         return CVR(id=r["id"], phantom=r["phantom"], pool=r["pool"], tally_pool=r["tally_pool"])
